@@ -142,7 +142,7 @@ class Magnet():
         if value is not None:
             try:
                 value = int(value)
-            except ValueError:
+            except (ValueError, TypeError, OverflowError):
                 raise error.MagnetError(value, 'Invalid exact length ("xl")')
             else:
                 if value < 1:
